@@ -15,7 +15,7 @@
    PROVED (unbounded, by induction over histories):
      - [C14_array_smashing_interval]: the full statement for the mirror model of
        array_smashing<interval_domain> (Dom/ArraySmash.v, with the repairs of
-       fixes/arrays-2, arrays-3), for histories without meet/narrowing/rename ([hop_ok]); and the
+       fixes/arrays-2, arrays-3), for histories without meet/narrowing and with one-variable renames ([hop_ok]); and the
        step-indexed forms it follows from.
    PARTIAL for array_adaptive_domain (its 3177 lines of transfer functions are not
    mirrored): the cell algebra (Dom/ArrayAdaptCore.v, corresponded by the unit stream):
